@@ -246,6 +246,18 @@ def seek_landing(F, R):
                     '(stores: %s): the following chunk is labelled with the wrong start frame' % (b.path, [d[:80] for _, d in stores]),
                     detail={'caller': b.path, 'recorded': 'result of Decoder::seek'}, where=b.where(sb))
     R.floor('B.C18.seek', n, 3)
+    # a relative seek is relative to what is being HEARD: the decoder thread's own transport runs up to a ring buffer ahead
+    # of the audio thread, so `seek_by` starts from the position the audio side publishes (Shared::position)
+    DSX = 'sound::streaming::sound::decode_scheduler::DecodeScheduler::<Error>'
+    sb_ = F.body(DSX + '::seek_by')
+    if R.check(sb_ is not None, 'B.C18.seek', 'anchor:seek_by', 'DecodeScheduler::seek_by not found'):
+        from ..paths import describe as _d
+        tgt = [(bb, _d(sb_, t['args'][1], depth=6, at=bb)) for bb, t in sb_.calls() if (callee_path(t) or '') == DSX + '::seek_to']
+        ok = len(tgt) == 1 and tgt[0][1].startswith('Add(') and 'Shared::position(' in tgt[0][1] and 'amount' in tgt[0][1] \
+            and 'transport' not in tgt[0][1]
+        R.check(ok, 'B.C18.seek', 'seek_by:base', 'the streaming seek_by seeks to %s, not to the published playback position + amount '
+                '(the decoder\'s transport is ahead of what is heard by up to the ring buffer)' % [d[:100] for _, d in tgt],
+                detail={'target': tgt[0][1][:120] if tgt else None}, where=sb_.file)
     # a frame that lies BEFORE the decoder's position can only be reached by seeking back: in frame_at_index every path on
     # which `index < decoder_current_frame_index` holds passes the seek before it decodes
     fb = F.body('sound::streaming::sound::decode_scheduler::DecodeScheduler::<Error>::frame_at_index')
